@@ -744,10 +744,11 @@ class MultiFit(FitBase):
         """
         # TODO relative errors
         if isinstance(fits, int):
-            self._fits[fits].add_matrix_error(
+            if axis is not None:  # single-axis fits (indexed, histogram) take no axis argument
+                kwargs = dict(kwargs, axis=axis)
+            return self._fits[fits].add_matrix_error(
                 err_matrix=err_matrix,
                 matrix_type=matrix_type,
-                axis=axis,
                 name=name,
                 err_val=err_val,
                 relative=relative,
@@ -801,12 +802,13 @@ class MultiFit(FitBase):
         :rtype: str
         """
         if isinstance(fits, int):
-            self._fits[fits].add_error(
+            if axis is not None:  # single-axis fits (indexed, histogram) take no axis argument
+                kwargs = dict(kwargs, axis=axis)
+            return self._fits[fits].add_error(
                 err_val=err_val,
                 name=name,
                 correlation=correlation,
                 relative=relative,
-                axis=axis,
                 reference=reference,
                 **kwargs,
             )
